@@ -1,0 +1,31 @@
+//go:build verif
+
+package filecache
+
+import "os"
+
+// VerifEntry describes one cached file. Compiled only with the "verif" build
+// tag.
+type VerifEntry struct {
+	File *os.File
+	Refs int
+}
+
+// VerifState returns the cache capacity, the cached entries from most to
+// least recently used, and the removed-but-referenced files.
+func (c *FileCache) VerifState() (int, []VerifEntry, map[*os.File]int) {
+	c.lock.Lock()
+	defer c.lock.Unlock()
+	var ents []VerifEntry
+	if c.ll != nil {
+		for e := c.ll.Front(); e != nil; e = e.Next() {
+			ent := e.Value.(*entry)
+			ents = append(ents, VerifEntry{ent.file, ent.refs})
+		}
+	}
+	removed := make(map[*os.File]int, len(c.removed))
+	for f, n := range c.removed {
+		removed[f] = n
+	}
+	return c.capacity, ents, removed
+}
